@@ -35,11 +35,15 @@
 // a handler that does not return within the watchdog time is reported as `k ORACLE FAIL hang op#j <op>` and ends the process;
 // one op (dispatch + pump to quiescence) that burns more than C07_CPU_BUDGET_S (default 3) seconds of PROCESS CPU TIME -- a
 // measure that does not depend on how loaded the machine is; ordinary ops take milliseconds -- is reported as
-// `k ORACLE FAIL slow-handler op#j <op>`: the single-threaded server answered nobody during that time.
+// `k ORACLE FAIL slow-handler op#j <op>`: the single-threaded server answered nobody during that time.  CPU time still varies
+// with the load of the machine (page faults), so the same is also measured in a load-independent unit: one op whose malloc()
+// calls add up to more than C07_ALLOC_BUDGET_MB (default 100) megabytes -- ordinary ops stay below a few megabytes -- is
+// reported as `k ORACLE FAIL resource-hog op#j <op>` (byte counter installed with the sanitizer's malloc hook).
 #include <signal.h>
 #include <unistd.h>
 #include <time.h>
 #include <sys/resource.h>
+#include <sanitizer/allocator_interface.h>
 #include "refl_common.h"
 #include "regex/PathMatcher.h"
 #include "regex/QueryFilter.h"
@@ -81,6 +85,12 @@ static char g_opText[200];
 static int g_watchdogSecs = 20;
 static double g_cpuBudget = 3.0;
 static double g_maxCpu = 0.0;
+
+static volatile unsigned long long g_allocBytes = 0;
+static unsigned long long g_allocBudget = 100ULL*1024ULL*1024ULL;
+static unsigned long long g_maxAlloc = 0;
+static void OnMalloc(const volatile void *, size_t n) {g_allocBytes += n;}
+static void OnFree(const volatile void *) {}
 
 static double CpuNow()
 {
@@ -654,12 +664,16 @@ struct Runner
          strncpy(g_opText, ops[oi].c_str(), sizeof(g_opText)-1); g_opText[sizeof(g_opText)-1] = '\0';
          alarm((unsigned) g_watchdogSecs);
          const double cpu0 = CpuNow();
+         const unsigned long long alloc0 = g_allocBytes;
          const bool valid = DoOp(ops[oi]);
          const int rounds = Pump();
          const double cpu = CpuNow()-cpu0;
          if (cpu > g_maxCpu) g_maxCpu = cpu;
          if (rounds >= 400) printf("%ld ORACLE FAIL no-quiescence op#%d %s\n", k, j, g_opText);
+         const unsigned long long alloc = g_allocBytes-alloc0;
+         if (alloc > g_maxAlloc) g_maxAlloc = alloc;
          if (cpu > g_cpuBudget) printf("%ld ORACLE FAIL slow-handler op#%d %s\n", k, j, g_opText);
+         else if (alloc > g_allocBudget) printf("%ld ORACLE FAIL resource-hog op#%d %s\n", k, j, g_opText);
          if (modelled) PrintState(j, Split(ops[oi], ':')[0], valid);
          else for (size_t ci=0; ci<w.NumSessions(); ci++) w.client(ci).inbox.clear();
          WitnessPing(j, g_opText);
@@ -685,6 +699,9 @@ int main(int, char **)
    if ((ws)&&(atoi(ws) > 0)) g_watchdogSecs = atoi(ws);
    const char * cb = getenv("C07_CPU_BUDGET_S");
    if ((cb)&&(atof(cb) > 0.0)) g_cpuBudget = atof(cb);
+   const char * ab = getenv("C07_ALLOC_BUDGET_MB");
+   if ((ab)&&(atol(ab) > 0)) g_allocBudget = ((unsigned long long) atol(ab))*1024ULL*1024ULL;
+   (void) __sanitizer_install_malloc_and_free_hooks(OnMalloc, OnFree);
    signal(SIGALRM, OnAlarm);
    std::string line;
    long k = 0;
@@ -698,7 +715,7 @@ int main(int, char **)
    if (getenv("C07_REPORT_CPU"))
    {
       struct rusage ru; getrusage(RUSAGE_SELF, &ru);
-      fprintf(stderr, "C07 max op cpu %.3f s, maxrss %ld MB\n", g_maxCpu, ru.ru_maxrss/1024);
+      fprintf(stderr, "C07 max op cpu %.3f s, max op malloc %llu MB, maxrss %ld MB\n", g_maxCpu, g_maxAlloc/(1024ULL*1024ULL), ru.ru_maxrss/1024);
    }
    return 0;
 }
